@@ -187,3 +187,53 @@ theorem checkDHParams_none_iff (hs : safetyMin = (2 : Int) ^ 1984)
   by_cases h5 : s < gb ∧ gb < p - s <;> simp [h5]
 
 end TdModel.C13
+
+namespace TdModel.C13
+
+/-! ## the binary multiplication loop -/
+
+theorem addMod_eq (w a c : Nat) (ha : a < w) (hc : c < w) : addMod w a c = (c + a) % w := by
+  unfold addMod
+  split
+  · rename_i h
+    have : c + a - w < w := by omega
+    rw [← Nat.mod_eq_of_lt this, ← Nat.add_mod_right (c + a - w) w]
+    congr 1; omega
+  · rename_i h
+    exact (Nat.mod_eq_of_lt (by omega)).symm
+
+theorem addMod_lt (w a c : Nat) (ha : a < w) (hc : c < w) : addMod w a c < w := by
+  rw [addMod_eq w a c ha hc]; exact Nat.mod_lt _ (by omega)
+
+/-- The binary multiplication loop of `DecomposePQ` computes `(c + a·b) mod what`. -/
+theorem mulAddLoop_eq (w a b c : Nat) (ha : a < w) (hc : c < w) :
+    mulAddLoop w a b c = (c + a * b) % w := by
+  induction b using Nat.strongRecOn generalizing a c with
+  | _ b ih =>
+    rw [mulAddLoop]
+    by_cases hb : b = 0
+    · subst hb; simp [Nat.mod_eq_of_lt hc]
+    rw [dif_neg hb]
+    have ha' := addMod_lt w a a ha ha
+    have hc' : (if b % 2 = 1 then addMod w a c else c) < w := by
+      split
+      · exact addMod_lt w a c ha hc
+      · exact hc
+    rw [ih (b / 2) (by omega) _ _ ha' hc', addMod_eq w a a ha ha]
+    have hb2 : b = 2 * (b / 2) + b % 2 := by omega
+    split
+    · rename_i h1
+      rw [addMod_eq w a c ha hc]
+      conv => rhs; rw [hb2, h1]
+      rw [Nat.add_mod, Nat.mod_mod, Nat.mul_mod ((a + a) % w), Nat.mod_mod, ← Nat.mul_mod, ← Nat.add_mod]
+      congr 1
+      rw [Nat.mul_add, Nat.mul_one, ← Nat.mul_assoc, Nat.mul_two]
+      omega
+    · rename_i h1
+      have h0 : b % 2 = 0 := by omega
+      conv => rhs; rw [hb2, h0]
+      rw [Nat.add_mod, Nat.mul_mod ((a + a) % w), Nat.mod_mod, ← Nat.mul_mod, ← Nat.add_mod]
+      congr 1
+      rw [Nat.add_zero, ← Nat.mul_assoc, Nat.mul_two]
+
+end TdModel.C13
